@@ -529,6 +529,9 @@ def r5_one_key_space(chk, prog):
                           'path' % (own, other), f.loc(c), 'a return is reachable without checkArgMix between the two '
                           'containers')
     chk.require(n_add >= 2, 'additions to the key containers found: %d' % n_add)
+    # ... and the check itself refuses equal keys AND contradicting short/long pairs (rule body shared with C08-R3)
+    from . import c08 as _c08
+    _c08.r3_check_arg_mix(chk, prog, rule='R5')
     # (b) lookup
     r5_lookup_table(chk, prog, handler_fns, conts)
 
